@@ -166,6 +166,10 @@ def check(out, fault_run=False):
             mine, states = ws[wi]
             vec = ['-'] * KEYS
             for kv in o['res']:
+                if kv.startswith('CHANGED:'):
+                    _, ck, a, b = kv.split(':')
+                    problems.append('VIOLATION[snapstable] key %s read twice through one snapshot over steps [%d,%d] gave version %s, then %s: the snapshot is not an immutable view' % (ck, o['inv'], o['ret'], a, b))
+                    continue
                 k, v = kv.split('=')
                 vec[int(k.split('k')[1])] = v
             lo, hi = window(mine, o['inv'], o['ret'])
